@@ -922,3 +922,238 @@ func runLookupBlockComplete(p *Prog, r *Report) {
 	r.ExpectMin("E11.lookup-block-arguments", n, 5)
 	r.Clauses = append(r.Clauses, "E11.lookup-block: every dependent-body lookup receives the parsed block (never a literal without Body)")
 }
+
+// E15.single-pass-loop — a range loop whose body ends in an unconditional `break` examines at
+// most one element that gets past its `continue` filters: whatever the loop searches for is
+// then only looked for in the first candidate, and the answer depends on element order.
+func runSinglePassLoop(p *Prog, r *Report) {
+	n := 0
+	for _, fn := range p.Funcs {
+		if fn.Body == nil {
+			continue
+		}
+		ast.Inspect(fn.Body, func(z ast.Node) bool {
+			if lit, ok := z.(*ast.FuncLit); ok && lit != fn.Lit {
+				return false
+			}
+			rs, ok := z.(*ast.RangeStmt)
+			if !ok || len(rs.Body.List) == 0 {
+				return true
+			}
+			n++
+			last := rs.Body.List[len(rs.Body.List)-1]
+			if br, ok := last.(*ast.BranchStmt); ok && br.Tok == token.BREAK && br.Label == nil && len(rs.Body.List) > 1 {
+				r.Add("E15.single-pass-loop", fn.Name, "range "+cmpText(rs.X)+" ends in break", p.Pos(br), Violated,
+					"the loop body ends in an unconditional break: only the first element that is not skipped is examined, later elements that would succeed are never tried", true)
+			}
+			return true
+		})
+	}
+	r.Counts["E15.range-loops-examined"] = n
+	r.ExpectMin("E15.range-loops-examined", n, 100)
+	r.Clauses = append(r.Clauses, "E15.single-pass-loop: no range loop body ends in an unconditional break")
+}
+
+// E3.append-through-alias — `x := y; …; x = append(x, …)` while y stays in use: x is y's slice
+// header, so the append writes into y's backing array whenever y has spare capacity; two
+// such appends (one per loop iteration, or one per sibling) overwrite each other's elements.
+// The self-assignment form hides what E3.append-alias reports for `z := append(y, …)`.
+func runAppendThroughAlias(p *Prog, r *Report) {
+	n := 0
+	for _, fn := range p.Funcs {
+		if fn.Body == nil {
+			continue
+		}
+		info := fn.Info()
+		ast.Inspect(fn.Body, func(z ast.Node) bool {
+			if lit, ok := z.(*ast.FuncLit); ok && lit != fn.Lit {
+				return false
+			}
+			as, ok := z.(*ast.AssignStmt)
+			if !ok || len(as.Lhs) != 1 || len(as.Rhs) != 1 {
+				return true
+			}
+			call, ok := ast.Unparen(as.Rhs[0]).(*ast.CallExpr)
+			if !ok || !isBuiltinCall(info, call, "append") || len(call.Args) < 2 {
+				return true
+			}
+			xid, ok := ast.Unparen(as.Lhs[0]).(*ast.Ident)
+			if !ok || !isIdentObj(info, call.Args[0], info.ObjectOf(xid)) {
+				return true
+			}
+			xo, ok := info.ObjectOf(xid).(*types.Var)
+			if !ok {
+				return true
+			}
+			n++
+			// definitions of x that copy another variable's slice header
+			for _, d := range defsOfIdent(fn, xo) {
+				if d == nil {
+					continue
+				}
+				yid, ok := ast.Unparen(d).(*ast.Ident)
+				if !ok {
+					continue
+				}
+				yo, ok := info.ObjectOf(yid).(*types.Var)
+				if !ok || yo == xo || yo.IsField() {
+					continue
+				}
+				if _, isSlice := yo.Type().Underlying().(*types.Slice); !isSlice {
+					continue
+				}
+				// is y still in use after the append: some read of y is reachable from the append
+				// without y being re-defined on the way (covers the next loop iteration)
+				live := false
+				ast.Inspect(fn.Body, func(m ast.Node) bool {
+					if live {
+						return false
+					}
+					if u, ok := m.(*ast.Ident); ok && info.Uses[u] == yo && u != yid {
+						if reachesWithoutRedef(fn, as, u, yo) {
+							live = true
+						}
+					}
+					return true
+				})
+				// a parameter is the caller's slice: always live
+				if rootOf(fn).isParam(yo) || fn.isParam(yo) {
+					live = true
+				}
+				if live {
+					r.Add("E3.append-through-alias", fn.Name, xid.Name+" = append("+xid.Name+", …) with "+xid.Name+" := "+yid.Name, p.Pos(as), Violated,
+						xid.Name+" is a copy of the slice header of "+yid.Name+", which stays in use: the append stores into "+yid.Name+"'s backing array when it has spare capacity, so successive appends (siblings, iterations, later callers) overwrite each other's elements", true)
+				}
+			}
+			return true
+		})
+	}
+	r.Counts["E3.self-appends-examined"] = n
+	r.ExpectMin("E3.self-appends-examined", n, 100)
+	r.Clauses = append(r.Clauses, "E3.append-through-alias: no x = append(x, …) where x was defined as a plain copy of another slice variable that stays in use")
+}
+
+// E5.copy-order — a Copy method returns its receiver's elements in the receiver's order: it
+// never sorts (a sorted copy is a permutation of the original, not an equal value).
+func runCopyKeepsOrder(p *Prog, r *Report) {
+	n := 0
+	for _, fn := range p.Funcs {
+		if fn.Body == nil || fn.Obj == nil || fn.Lit != nil || fname(fn.Obj) != "Copy" {
+			continue
+		}
+		if sig := fn.Obj.Type().(*types.Signature); sig.Recv() == nil {
+			continue
+		}
+		n++
+		info := fn.Info()
+		ast.Inspect(fn.Body, func(z ast.Node) bool {
+			call, ok := z.(*ast.CallExpr)
+			if !ok {
+				return true
+			}
+			if _, isSort := isSortCall(info, call); isSort {
+				r.Add("E5.copy-order", fn.Name, "call "+calleeFull(info, call), p.Pos(call), Violated,
+					"a Copy method sorts: the copy is a permutation of the original's elements, so it is not structurally equal to the original unless that happened to be sorted", true)
+			}
+			return true
+		})
+	}
+	r.Counts["E5.copy-methods-examined-for-order"] = n
+	r.ExpectMin("E5.copy-methods-examined-for-order", n, 20)
+	r.Clauses = append(r.Clauses, "E5.copy-order: no Copy method sorts")
+}
+
+// E11.path-identity — a lang.Path is identified by directory *and* language: per-path data
+// must be keyed by the whole lang.Path value, never by its Path (directory) string alone.
+func runPathIdentity(p *Prog, r *Report) {
+	n := 0
+	for _, fn := range p.Funcs {
+		if fn.Body == nil {
+			continue
+		}
+		info := fn.Info()
+		ast.Inspect(fn.Body, func(z ast.Node) bool {
+			ix, ok := z.(*ast.IndexExpr)
+			if !ok {
+				return true
+			}
+			if t := info.TypeOf(ix.X); t == nil {
+				return true
+			} else if _, isMap := t.Underlying().(*types.Map); !isMap {
+				return true
+			}
+			n++
+			key := ast.Unparen(fn.InlineLocals(ix.Index, 2))
+			sel, ok := key.(*ast.SelectorExpr)
+			if !ok || sel.Sel.Name != "Path" {
+				return true
+			}
+			if t := info.TypeOf(sel.X); t != nil && typeIs(t, "hcl-lang/lang", "Path") {
+				r.Add("E11.path-identity", fn.Name, "map key "+exprStr(ix.Index), p.Pos(ix), Violated,
+					"a map is keyed by the directory string of a lang.Path: two paths with the same directory and different LanguageID (e.g. terraform and terraform-vars) share one entry", true)
+			}
+			return true
+		})
+	}
+	r.Counts["E11.map-index-expressions"] = n
+	r.ExpectMin("E11.map-index-expressions", n, 50)
+	r.Clauses = append(r.Clauses, "E11.path-identity: no map is keyed by lang.Path.Path alone")
+}
+
+// E6.no-rebase — byte offsets everywhere in the module are offsets into the whole file. A
+// function that receives file bytes together with a position must not re-slice its byte
+// parameter from a non-zero start and go on computing offsets on the shorter slice: they
+// would be window-relative while every caller (and callback) compares them with file offsets.
+func runNoRebase(p *Prog, r *Report) {
+	n := 0
+	for _, fn := range p.Funcs {
+		if fn.Body == nil || fn.Lit != nil || fn.Obj == nil {
+			continue
+		}
+		sig := fn.Obj.Type().(*types.Signature)
+		var byteParams []*types.Var
+		hasPos := false
+		for i := 0; i < sig.Params().Len(); i++ {
+			v := sig.Params().At(i)
+			if sl, ok := v.Type().Underlying().(*types.Slice); ok {
+				if b, ok := sl.Elem().Underlying().(*types.Basic); ok && b.Kind() == types.Byte {
+					byteParams = append(byteParams, v)
+				}
+			}
+			if isHclPos(v.Type()) || isHclRange(v.Type()) {
+				hasPos = true
+			}
+		}
+		if len(byteParams) == 0 || !hasPos {
+			continue
+		}
+		n++
+		info := fn.Info()
+		ast.Inspect(fn.Body, func(z ast.Node) bool {
+			as, ok := z.(*ast.AssignStmt)
+			if !ok || len(as.Lhs) != len(as.Rhs) {
+				return true
+			}
+			for i, l := range as.Lhs {
+				for _, bp := range byteParams {
+					if !isIdentObj(info, l, bp) {
+						continue
+					}
+					se, ok := ast.Unparen(as.Rhs[i]).(*ast.SliceExpr)
+					if !ok || !isIdentObj(info, se.X, bp) || se.Low == nil {
+						continue
+					}
+					if v, isC := constInt(info, se.Low); isC && v == 0 {
+						continue
+					}
+					r.Add("E6.no-rebase", fn.Name, exprStr(l)+" = "+exprStr(as.Rhs[i]), p.Pos(as), Violated,
+						"the file bytes are re-sliced from a non-zero start: offsets computed on them afterwards are relative to that window, while positions and the offsets callers compare them with are relative to the file", true)
+				}
+			}
+			return true
+		})
+	}
+	r.Counts["E6.functions-taking-bytes-and-position"] = n
+	r.ExpectMin("E6.functions-taking-bytes-and-position", n, 2)
+	r.Clauses = append(r.Clauses, "E6.no-rebase: a function taking file bytes and a position never re-slices the bytes from a non-zero start")
+}
